@@ -526,6 +526,10 @@ def run(ctx):
             run_demo(ctx, 'demo_tr4.py', [1 + ctx.seed], 'c06-code-vs-generated-vs-model-4',
                      'BinaryCLT log_likelihood / mpe / message_passing / bfs order vs generated definitions vs model', env_extra=dict(DEMO_SECTIONS='b'))
         if ctx.n_new() == 0:
+            run_demo(ctx, 'demo_tr5clt.py', [1 + ctx.seed], 'c06-clt-loops-generated',
+                     'BinaryCLT.message_passing / mpe: implementation = the LOOPS generated from the source = fourth-wave definitions = model',
+                     env_extra=dict(TR5_MAXN='4' if ctx.tier == 'quick' else '5'))
+        if ctx.n_new() == 0:
             run_demo(ctx, 'demo_leaves.py', [20260929 + ctx.seed], 'c06-leaf-families-vs-model',
                      'leaf modes (Bernoulli / Categorical / Uniform / Isotonic / Gaussian: the filled value maximises the density) against the exact leaf theory')
 
